@@ -336,6 +336,7 @@ Loop:
 		case ' ':
 		case '\n':
 		case '\t':
+		case '\r':
 			continue
 		case '[':
 			return true
@@ -802,7 +803,7 @@ func (p Patch) ApplyIndent(doc []byte, indent string) ([]byte, error) {
 	}
 
 	var pd container
-	if doc[0] == '[' {
+	if isArray(doc) {
 		pd = &partialArray{}
 	} else {
 		pd = &partialDoc{}
